@@ -194,6 +194,8 @@ impl PeekOut {
 }
 
 pub struct Ctx<'a> {
+    /// include the simulation scratch buffers in the deduplication key (finer, slower)
+    pub key_with_scratch: bool,
     pub cfg: &'a Cfg,
     pub spec: &'a [ModeSpec],
     pub sc: &'a Scanner,
@@ -354,6 +356,10 @@ pub fn explore(ctx: &Ctx) -> Explored {
     };
     let mut seen: HashMap<(IterState, MState), ()> = HashMap::new();
     let mut queue: VecDeque<(Vec<Op>, MState)> = VecDeque::new();
+    let mut init_state = init_state;
+    if !ctx.key_with_scratch {
+        init_state.scratch.clear();
+    }
     seen.insert((init_state, MState::initial()), ());
     queue.push_back((vec![], MState::initial()));
     // the initial state's observations are checked as part of the first transitions
@@ -480,6 +486,12 @@ pub fn explore(ctx: &Ctx) -> Explored {
                     if let Some((kind, detail)) = dis {
                         out.disagreements.push(Disagreement { kind, detail, history: hist.clone(), at: op });
                         continue;
+                    }
+                    let mut after = after;
+                    if !ctx.key_with_scratch {
+                        // The scratch buffers are cleared at the start of every match attempt; the
+                        // quick tier relies on that and merges states that differ only there.
+                        after.scratch.clear();
                     }
                     let key = (after, st);
                     if !seen.contains_key(&key) {
